@@ -406,7 +406,7 @@ def prog_iteration(seed: int, n_ops: int = 8, *, eager=True, two_engines=True) -
             op, nc = g.rand_op(g.cols[t], allow=allow)
             r = g.apply(t, op, nc)
         observed.append(r)
-    for r in observed:
+    for r in dict.fromkeys(observed):
         g.emit(["exec", r])
         g.emit(["sem", r])
     return g
@@ -885,7 +885,7 @@ def prog_sql(seed: int, n_ops: int = 8, *, sorts: float = 1.0, selfjoin: float =
             else:
                 r = g.join(t, u, pred)
         observed.append(r)
-    for r in observed:
+    for r in dict.fromkeys(observed):
         g.emit(["sqlexec", r])
         g.emit(["sem", r])
     return g
@@ -1266,7 +1266,7 @@ def prog_multi(seed: int, n_ops: int = 8, *, three: float = 0.3, prefs: float = 
                 e = ["fn", "o:special", otherk, ["ref", rng.choice(sorted(g.cols[t]))]]
                 g.emit(["join", g.fresh(), t, rng.choice(partners), ["pfn", "lt", "*", e, ["lit", 1]],
                         rng.choice(["T", "F"]), rng.choice(["T", "F"])])
-    for r in observed:
+    for r in dict.fromkeys(observed):
         p = "p" + r[1:]
         g.emit(["process", p, r])
         g.emit(["exec", p])
@@ -1328,7 +1328,7 @@ def prog_shortcuts(seed: int) -> G:
         if g.cols[cur] and rng.random() < 0.4:
             op, nc = g.rand_op(g.cols[cur], allow=("sel", "dedup"))
             observed.append(g.apply(cur, op, nc))
-    for r in observed:
+    for r in dict.fromkeys(observed):
         p = "p" + r[1:]
         g.emit(["process", p, r])
         g.emit(["exec", p])
@@ -1478,7 +1478,7 @@ def prog_diag(seed: int, n_ops: int = 7) -> G:
         else:
             r = g.mat(t)
         observed.append(r)
-    for r in observed:
+    for r in dict.fromkeys(observed):
         g.emit(["diag", r, "none"])
         g.emit(["diag", r, "truthful"])
         g.emit(["sem", r])
@@ -1828,6 +1828,7 @@ def prog_values(seed: int, n_ops: int = 6) -> G:
                 twins.append((ja, jb))
                 g.emit(["hash", ja, jb])
                 g.emit(["snap"])
+    used_pnames: set[str] = set()
     for _ in range(n_ops):
         a, b = rng.choice(twins)
         k = rng.random()
@@ -1868,9 +1869,15 @@ def prog_values(seed: int, n_ops: int = 6) -> G:
             g.emit(["exec", r])
             g.emit(["sqlexec", r])
         elif ev < 0.5:
-            g.emit(["process", "p" + r[1:], r])
-            g.emit(["exec", "p" + r[1:]])
-            g.emit(["sqlexec", "p" + r[1:]])
+            # a relation may be processed more than once: every result gets its OWN pool name (re-using one would
+            # rebind it, and the snapshot comparison would report the old relation as "changed")
+            pname = "p" + r[1:]
+            while pname in used_pnames:
+                pname += "b"
+            used_pnames.add(pname)
+            g.emit(["process", pname, r])
+            g.emit(["exec", pname])
+            g.emit(["sqlexec", pname])
         elif ev < 0.6:
             g.emit(["diag", r, "none"])
         elif ev < 0.7:
